@@ -690,6 +690,19 @@ class DialectKWArgs:
         if not kwargs:
             return
 
+        existing = self.__dict__.get("dialect_options")
+        if existing is not None:
+            # a generative copy (Generative._generate() copies __dict__
+            # shallowly) must not write into the registry it shares with
+            # the statement it was copied from
+            del self.__dict__["dialect_options"]
+            fresh = self.dialect_options
+            for dialect_name, args in existing.items():
+                if args._non_defaults:
+                    fresh[dialect_name]._non_defaults.update(
+                        args._non_defaults
+                    )
+
         for k in kwargs:
             m = re.match("^(.+?)_(.+)$", k)
             if not m:
